@@ -14,7 +14,7 @@ from typing import Iterable
 Mono = tuple[tuple[str, int], ...]  # sorted ((symbol, exponent), ...)
 
 _ORDER: dict[str, int] = {}
-NONNEG_PREFIXES = ("mod(", "floordiv(", "rank#", "loop_index")
+NONNEG_PREFIXES = ("mod(", "floordiv(", "rank#", "loop_index", "nn:")  # "nn:<name>": a quantity whose domain includes 0 (a polynomial degree)
 
 
 def sym_index(name: str) -> int:
